@@ -519,6 +519,8 @@ def judge_case(gname, family, lines, targets):
 def replay(w, ctx):
   if w.get("family") == "Uanon":
     return judge_anon(w["lines"])
+  if w.get("family") == "Urename":
+    return judge_rename(w)
   res, info = judge_case(w["graph"], w["family"], w["lines"], w["targets"])
   return [v for _, _, v in res]
 
@@ -580,6 +582,142 @@ def judge_anon(lines):
         "import gfapy\ng = gfapy.Gfa({!r}, version='gfa2')\n"
         "print([str(e) for e in g.line('u').induced_edges_set])".format(lines)))
   return out
+
+
+# ---------------------------------------------------------------------------
+# groups after a rename (family Urename): whatever was computed or written
+# before, after renaming a segment / an edge / a group the groups give the
+# answers of a Gfa parsed afresh from the renamed text (differential oracle)
+
+def group_answers(g):
+  out = {}
+  for l in sorted(g.lines, key=str):
+    rt = l.record_type
+    if rt == "O":
+      for what in ("captured_path", "captured_segments", "captured_edges"):
+        try:
+          out[(str(l.name), what)] = [
+              (str(x.name), x.orient) for x in getattr(l, what)]
+        except gfapy.Error as e:
+          out[(str(l.name), what)] = type(e).__name__
+    elif rt == "U":
+      for what in ("induced_segments_set", "induced_edges_set"):
+        try:
+          out[(str(l.name), what)] = sorted(str(x) for x in getattr(l, what))
+        except gfapy.Error as e:
+          out[(str(l.name), what)] = type(e).__name__
+  out["text"] = sorted(str(g).split("\n"))
+  return out
+
+
+def rename_documents():
+  T_ = "\t".join
+  base = [T_(["S", n, "10", "*"]) for n in "abcd"] + [
+      T_(["E", "e1", "a+", "b+", "8", "10$", "0", "2", "*"]),
+      T_(["E", "e2", "b+", "c+", "8", "10$", "0", "2", "*"]),
+      T_(["E", "e3", "c+", "d-", "8", "10$", "8", "10$", "*"])]
+  groupsets = [
+      [T_(["O", "p", "a+ b+ c+ d-"])],
+      [T_(["O", "p", "a+ e1+ b+ e2+ c+"])],
+      [T_(["O", "p", "d+ c- b- a-"])],
+      [T_(["O", "s", "b+ c+"]), T_(["O", "p", "a+ s+ d-"])],
+      [T_(["O", "s", "b+ c+"]), T_(["O", "p", "d+ s- a-"])],
+      [T_(["U", "u", "a b c"])],
+      [T_(["O", "p", "a+ b+"]), T_(["U", "u", "p c"])],
+      [T_(["U", "v", "a e1"]), T_(["U", "u", "v c"])],
+  ]
+  later = [T_(["O", "q", "c- b- a-"]), T_(["U", "w", "b c"]),
+           T_(["O", "q", "a+ b+ c+"])]
+  renames = [("b", "x"), ("a", "x"), ("e1", "x"), ("e2", "x"), ("p", "x"),
+             ("s", "x"), ("u", "x"), ("v", "x")]
+  docs = []
+  for gs in groupsets:
+    names = set(l.split("\t")[1] for l in base + gs)
+    for old, new in renames:
+      if old not in names:
+        continue
+      for warm in ("none", "str", "queries"):
+        for lt in [None] + later:
+          docs.append({"lines": base + gs, "old": old, "new": new,
+                       "warm": warm, "later": lt})
+  return docs
+
+
+def _subst(line, old, new):
+  import re as _re
+  f = line.split("\t")
+  def sub(tok):
+    m = _re.match(r"^(.*?)([+-]?)$", tok)
+    return (new + m.group(2)) if m.group(1) == old else tok
+  if f[0] == "S":
+    f[1] = new if f[1] == old else f[1]
+  elif f[0] == "E":
+    f[1] = new if f[1] == old else f[1]
+    f[2], f[3] = sub(f[2]), sub(f[3])
+  elif f[0] in "OU":
+    f[1] = new if f[1] == old else f[1]
+    f[2] = " ".join(sub(t) for t in f[2].split(" "))
+  return "\t".join(f)
+
+
+def judge_rename(case):
+  lines, old, new = case["lines"], case["old"], case["new"]
+  later = case["later"]
+  key = {"graph": "rename", "groups": " ; ".join(
+      l.replace("\t", " ") for l in lines if l[0] in "UO"),
+      "sig": "rename {}->{} warm={} then {}".format(
+          old, new, case["warm"],
+          later.replace("\t", " ") if later else "-")}
+  w = dict(case)
+  w["family"] = "Urename"
+  try:
+    g = gfapy.Gfa(version="gfa2")
+    for l in lines:
+      g.add_line(l)
+    if case["warm"] == "str":
+      str(g)
+    elif case["warm"] == "queries":
+      group_answers(g)
+    g.line(old).name = new
+    renamed = [_subst(l, old, new) for l in lines]
+    if later is not None:
+      lt = _subst(later, old, new)
+      renamed.append(lt)
+      g.add_line(lt)
+    got = group_answers(g)
+    f = gfapy.Gfa(version="gfa2")
+    for l in renamed:
+      f.add_line(l)
+    want = group_answers(f)
+  except gfapy.Error as e:
+    return [mkviolation("rename-breaks-groups", key, w,
+                        "the renamed document is as valid as the original",
+                        "{}: {}".format(type(e).__name__,
+                                        str(e).split("\n")[0][:120]))]
+  except Exception as e:
+    return [mkviolation("foreign-exception", dict(key, exc=type(e).__name__),
+                        w, "", type(e).__name__)]
+  if got != want:
+    diff = [k for k in sorted(set(got) | set(want), key=str)
+            if got.get(k) != want.get(k)]
+    return [mkviolation("rename-breaks-groups", key, w,
+                        {str(k): want.get(k) for k in diff[:3]},
+                        {str(k): got.get(k) for k in diff[:3]})]
+  return []
+
+
+def work_rename(chunk):
+  res = new_result()
+  for case in chunk:
+    res["evaluations"] += 1
+    res["transitions"] += len(case["lines"]) + 3
+    res["traces"] += 1
+    vs = judge_rename(case)
+    res["states"].add(h([case["lines"], case["old"], case["later"]]))
+    res["nontrivial"].add(h(case))
+    res["outcomes"].add("Urename:" + ("ok" if not vs else vs[0]["clause"]))
+    res["violations"].extend(vs[:1])
+  return res
 
 
 def work_anon(chunk):
@@ -981,6 +1119,19 @@ def run(ctx):
                     chunksize=1):
     vs = r.pop("violations")
     fam_cases["Uanon"] = fam_cases.get("Uanon", 0) + r["evaluations"]
+    ctx.merge(r)
+    for v in vs:
+      if kept < KEEP_PER_SIG:
+        ctx.violation(v)
+        kept += 1
+      else:
+        ctx.n_violations += 1
+  rd = rename_documents()
+  kept = 0
+  for r in ctx.pmap(work_rename, [rd[i:i + 20] for i in range(0, len(rd), 20)],
+                    chunksize=1):
+    vs = r.pop("violations")
+    fam_cases["Urename"] = fam_cases.get("Urename", 0) + r["evaluations"]
     ctx.merge(r)
     for v in vs:
       if kept < KEEP_PER_SIG:
